@@ -188,7 +188,11 @@ KNOWN_SHAPES = [
     ("def bo(a: int, b: int) -> int:\n\treturn a or b\n", [('bo', [(0, 5), (2, 5)], 'int')], 'or-on-int'),
     ("def ec(a: int, b: int) -> int:\n\ttotal = 0\n\tys = [a, b, 3]\n\tfor i, x in enumerate(ys):\n\t\tif x > 2:\n\t\t\tcontinue\n\t\ttotal += i + x\n\treturn total\n", [('ec', [(200, 1), (1, 1)], 'int')], 'enumerate-continue'),
     ("def il(a: int) -> bool:\n\treturn a in [1, 2]\n", [('il', [(1,), (5,)], 'bool')], 'in-list-literal'),
+    ("def ce(a: int, b: int) -> int:\n\tys = [a, b, 3]\n\tzs = [i * x for i, x in enumerate(ys)]\n\treturn zs[0] + zs[1] * 10 + zs[2] * 100\n", [('ce', [(2, 3), (1, 1)], 'int')], 'enumerate-comprehension'),
+    ("class K:\n\ta: int\n\tb: int\n\n\tdef __init__(self, n: int) -> None:\n\t\tself.a = n\n\t\tself.a += 1\n\t\tself.b = self.a\n\ndef ci(n: int) -> int:\n\tk = K(n)\n\treturn k.a * 100 + k.b\n", [('ci', [(2,), (5,)], 'int')], 'ctor-statement-order'),
+    ("def fl(n: int) -> int:\n\tt = 0\n\tfor x in [1, 2, n]:\n\t\tt += x\n\treturn t\n", [('fl', [(2,), (5,)], 'int')], 'for-over-list-literal'),
     # repaired shapes, kept as regression inputs
+    ("def cc(n: int) -> int:\n\tdef one(q: int) -> int:\n\t\treturn q + n\n\tdef two(q: int) -> int:\n\t\treturn one(q) * 2\n\tw = (lambda q: one(q) + 1)(n)\n\treturn two(n) + w\n", [('cc', [(2,), (5,)], 'int')], 'closure-calls-closure'),
     ("def rb(a: int) -> int:\n\ttotal = 0\n\tfor i in range(a & 3):\n\t\ttotal += i\n\tys = [a, 1, 3]\n\tys.insert(a & 1, 9)\n\treturn total + ys[0] + ys.pop(a & 1)\n", [('rb', [(200,), (7,)], 'int')], 'range-and-index-grouping'),
     ("def dg(a: int, s: str) -> int:\n\td = {'x': a}\n\treturn d.get('y', 0) + len(d) + len(str(a) + s) * 2\n", [('dg', [(3, 'ab')], 'int')], 'call-result-grouping'),
     # dict.get as an operand through a member receiver / with an operator in the key; comprehensions over the three dict views
